@@ -500,6 +500,8 @@ func (x *Exec) wf(st *State, t Term, typ types.Type) {
 		}
 	case *types.Interface:
 		if !isLiteral(t) && st != nil {
+			// the nil interface is the only value without a dynamic type
+			x.vc.assert(implies(eq(iType(t), intLit(0)), eq(iVal(t), intLit(0))))
 			// a reference carried by an interface value refers to an existing object
 			x.vc.declareFun("isref", []Sort{SInt}, SBool)
 			if x.wfDeep {
